@@ -6,7 +6,9 @@ usage: gen_tables.py <repo> <coq/Gen dir>
 Generated (rewritten only when the content changes, so make does not rebuild needlessly):
   CharTraits.v     parser/src/char_traits.rs  -> one boolean predicate per `pub fn is_*`, and as_hex
   Escapes.v        scanner.rs resolve_flow_scalar_escape_sequence match arms -> escape_table, code_length
-  EmitterTables.v  saphyr/src/emitter.rs escape_str arms, need_quotes tables; char_traits.rs literal-block class
+  EmitterTables.v  saphyr/src/emitter.rs escape_str arms, need_quotes tables, the guards of is_literal_block, the key
+                   forms of emit_mapping (complex_key) and is_long_key / MAX_IMPLICIT_KEY_LEN; char_traits.rs
+                   literal-block class
   ResolverTables.v saphyr/src/scalar.rs / loader.rs literal word lists
   Consts.v         numeric constants the model depends on
 
@@ -296,6 +298,89 @@ def gen_emitter(repo):
     if not m:
         raise TranslateError("is_valid_literal_block_scalar")
     out += "Definition literal_block_chars : list (N * N) := [%s].\n" % "; ".join("(%d, %d)" % p for p in pats(m.group(1)))
+    out += gen_emitter_guards(src)
+    return out
+
+
+def gen_emitter_guards(src):
+    """The guards of the literal-block style (`YamlEmitter::is_literal_block`), the key forms of `emit_mapping` and the
+    implicit-key length limit (`is_long_key`).  Each guard is a flag (true = the guard is in the source, in the
+    shape the model mirrors) or a table; a source without them (the emitter before these fixes) gives all-false
+    flags, for which the model is the old emitter and the proofs of coq/Proofs/EmitterProofs.v break."""
+    out = ""
+
+    def lits(txt):
+        return "[%s]" % "; ".join(map(str, str_lit(txt)))
+    m = re.search(r"fn is_literal_block\(&self, v: &str\) -> bool \{(.*?)\n    \}", src, re.S)
+    body = re.sub(r"\s+", " ", m.group(1)) if m else ""
+    if m and not body.strip().startswith("if !(self.multiline_strings && v.contains('\\n') && "
+                                         "char_traits::is_valid_literal_block_scalar(v)) { return false; }"):
+        raise TranslateError("is_literal_block: base condition")
+    if m and not body.strip().endswith("true"):
+        raise TranslateError("is_literal_block: final value")
+    flags = dict(
+        lit_guarded=bool(m),
+        lit_guard_content=("let content = v.trim_start_matches('\\n'); "
+                           "if content.is_empty() || content.starts_with(' ') { return false; }") in body,
+        lit_guard_tail='if v.ends_with("\\n\\n") { return false; }' in body,
+    )
+    mr = re.search(r"if self\.level < 0 \{ return (.*?); \}", body)
+    starts, prefixes = [], []
+    if mr:
+        e = mr.group(1)
+        mm = re.fullmatch(r"((?:!v\.starts_with\(" + CHAR + r"\) && )*)!v \.lines\(\) \.any\(\|line\| (.*?)\)", e)
+        if not mm:
+            raise TranslateError("is_literal_block: root guard %r" % e)
+        starts = [char_lit(c) for c in re.findall(r"!v\.starts_with\(" + CHAR + r"\)", mm.group(1))]
+        alts = [a.strip() for a in mm.group(mm.lastindex).split("||")]
+        for a in alts:
+            ma = re.fullmatch(r'line\.starts_with\("((?:\\.|[^"\\])*)"\)', a)
+            if not ma:
+                raise TranslateError("is_literal_block: root line test %r" % a)
+            prefixes.append(ma.group(1))
+    # the guards this translator does not know would silently be lost: count the `return` statements
+    if m and body.count("return") != sum([1, flags["lit_guard_content"], flags["lit_guard_tail"], bool(mr)]):
+        raise TranslateError("is_literal_block: unknown guard")
+    flags["lit_guard_root"] = bool(mr)
+    for k, v in flags.items():
+        out += "Definition %s : bool := %s.\n" % (k, "true" if v else "false")
+    out += "Definition lit_root_bad_start : list N := [%s].\n" % "; ".join(map(str, starts))
+    out += "Definition lit_root_bad_prefixes : list (list N) := [%s].\n" % "; ".join(lits(p) for p in prefixes)
+    # emit_mapping: which scalar keys take the explicit form
+    me = re.search(r"fn emit_mapping\(.*?let complex_key = (.*?);\n", src, re.S)
+    if not me:
+        raise TranslateError("emit_mapping: complex_key")
+    ck = re.sub(r"\s+", " ", me.group(1))
+    if ck == "matches!(k, Yaml::Mapping(_) | Yaml::Sequence(_))":
+        k_lit = k_long = False
+    else:
+        mk = re.fullmatch(r"match \*k \{ Yaml::Mapping\(_\) \| Yaml::Sequence\(_\) => true, "
+                          r"Yaml::Value\(Scalar::String\(ref s\)\) => \{? ?(.*?) ?\}?,? _ => false, \}", ck)
+        if not mk:
+            raise TranslateError("emit_mapping: complex_key %r" % ck)
+        terms = [t.strip() for t in mk.group(1).split("||")]
+        if any(t not in ("self.is_literal_block(s)", "is_long_key(s)") for t in terms):
+            raise TranslateError("emit_mapping: complex_key terms %r" % terms)
+        k_lit, k_long = "self.is_literal_block(s)" in terms, "is_long_key(s)" in terms
+    out += "Definition key_explicit_literal : bool := %s.\n" % ("true" if k_lit else "false")
+    out += "Definition key_explicit_long : bool := %s.\n" % ("true" if k_long else "false")
+    # is_long_key
+    mc = re.search(r"const MAX_IMPLICIT_KEY_LEN: usize = (\d+);", src)
+    ml = re.search(r"fn is_long_key\(string: &str\) -> bool \{(.*?)\n\}", src, re.S)
+    if k_long:
+        if not (mc and ml):
+            raise TranslateError("is_long_key")
+        lb = re.sub(r"\s+", " ", ml.group(1)).strip()
+        mm = re.fullmatch(r"if string\.len\(\) <= \(MAX_IMPLICIT_KEY_LEN - (\d+)\) / (\d+) \{ return false; \} "
+                          r"if need_quotes\(string\) \{ let mut escaped = String::new\(\); "
+                          r"escape_str\(&mut escaped, string\)\.is_err\(\) \|\| escaped\.chars\(\)\.count\(\) > MAX_IMPLICIT_KEY_LEN "
+                          r"\} else \{ string\.chars\(\)\.count\(\) > MAX_IMPLICIT_KEY_LEN \}", lb)
+        if not mm:
+            raise TranslateError("is_long_key body %r" % lb)
+        out += "Definition emit_key_max : N := %s.\nDefinition emit_key_quotes : N := %s.\nDefinition emit_key_esc_max : N := %s.\n" % (
+            mc.group(1), mm.group(1), mm.group(2))
+    else:
+        out += "Definition emit_key_max : N := 0.\nDefinition emit_key_quotes : N := 0.\nDefinition emit_key_esc_max : N := 1.\n"
     return out
 
 
